@@ -5,7 +5,15 @@ use std::io::{BufRead, Write};
 use std::panic::{catch_unwind, AssertUnwindSafe};
 
 mod bits;
+mod codegen;
 mod der;
+mod intty;
+mod lex;
+mod parse;
+mod per;
+mod proto;
+mod tags;
+mod uper;
 
 pub type I = i128;
 
@@ -35,8 +43,16 @@ fn panic_class(msg: &str) -> I {
 
 fn dispatch(op: I, args: &[I]) -> Vec<I> {
     match op {
+        1000..=1099 => per::run(op, args),
         1100..=1199 => bits::run(op, args),
+        1200..=1299 => uper::run(op, args),
         2000..=2099 => der::run(op, args),
+        3000..=3099 => lex::run(op, args),
+        3100..=3199 => intty::run(op, args),
+        3200..=3299 => tags::run(op, args),
+        3300..=3399 => parse::run(op, args),
+        3400..=3499 => codegen::run(op, args),
+        4000..=4199 => proto::run(op, args),
         _ => vec![-1],
     }
 }
@@ -77,6 +93,14 @@ fn main() {
         writeln!(out).unwrap();
     }
     out.flush().unwrap();
+}
+
+/// Run `f`, turning a panic into its class code.
+pub fn catch<T>(f: impl FnOnce() -> T) -> Result<T, I> {
+    match catch_unwind(AssertUnwindSafe(f)) {
+        Ok(v) => Ok(v),
+        Err(_) => Err(panic_class(&LAST_PANIC.with(|p| p.borrow().clone()))),
+    }
 }
 
 pub fn bytes_of(a: &[I]) -> Vec<u8> {
